@@ -35,7 +35,7 @@ if not os.path.exists(os.path.join(src, "patch.diff")):
     print(prop, k, "no patch"); sys.exit(2)
 readme = open(os.path.join(src, "README.md")).read() if os.path.exists(os.path.join(src, "README.md")) else ""
 head = subprocess.run(["git", "-C", "/repo", "rev-parse", "HEAD"], stdout=subprocess.PIPE, text=True).stdout.strip()
-sh("git checkout -q -- . && git clean -fdq -e out && git checkout -q --detach %s" % head, cwd=wt)
+sh("git reset -q --hard && git clean -fdq -e out && git checkout -q --detach %s && git reset -q --hard" % head, cwd=wt)
 meta["repo_head"] = head
 rc, out = sh("git apply --check out/m%s/patch.diff" % k, cwd=wt)
 if rc != 0:
@@ -74,13 +74,17 @@ def run_demo():
     shutil.copyfile(demo, os.path.join(wt, demo_dir, "zz_seed_demo_test.go"))
     names = re.findall(r"^func (Test\w+)\(", open(demo).read(), re.M)
     rc, out = sh(["go", "test", "-count=1", "-timeout", "600s", "-run", "^(%s)$" % "|".join(names), "./" + demo_dir + "/"], cwd=wt, timeout=700)
-    os.remove(os.path.join(wt, demo_dir, "zz_seed_demo_test.go"))
+    try:
+        os.remove(os.path.join(wt, demo_dir, "zz_seed_demo_test.go"))
+    except FileNotFoundError:
+        pass
     return rc, out[-1500:]
 
 
 rc0, out0 = run_demo()
 meta["demo_without_change"] = {"rc": rc0, "tail": out0[-600:] if out0 else ""}
-sh("git apply --3way out/m%s/patch.diff || git apply out/m%s/patch.diff" % (k, k), cwd=wt)
+rca, outa = sh("git apply out/m%s/patch.diff || (git apply --3way out/m%s/patch.diff && git reset -q)" % (k, k), cwd=wt)
+meta["applied"] = rca
 rcb, outb = sh(["go", "build"] + ["./" + t + "/..." for t in touched], cwd=wt)
 rcv, outv = sh(["go", "build", "-tags", "verif"] + ["./" + t + "/..." for t in touched], cwd=wt)
 meta["build"] = {"plain": rcb, "verif": rcv, "log": (outb + outv)[-400:]}
@@ -89,7 +93,7 @@ meta["demo_with_change"] = {"rc": rc1, "tail": out1[-900:] if out1 else ""}
 meta["confirmed"] = bool(rc0 == 0 and rc1 not in (0, None) and rcb == 0 and rcv == 0)
 # run the property's check against the changed tree
 t0 = time.time()
-rcC, outC = sh(["./check", prop], cwd="/verif", timeout=3000, extra={"VERIF_REPO": wt})
+rcC, outC = sh(["./check", prop], cwd="/verif", timeout=3000, extra={"VERIF_REPO": wt, "VERIF_EVIDENCE": dst})
 meta["check"] = {"cmd": "VERIF_REPO=%s ./check %s" % (wt, prop), "exit": rcC, "wall_s": round(time.time() - t0, 1),
                  "lines": [l for l in outC.split("\n") if l.startswith(("VIOLATION", "KNOWN-FINDING", prop))][-12:]}
 viol = [l for l in outC.split("\n") if l.startswith("VIOLATION")]
@@ -106,7 +110,8 @@ for l in viol[:6]:
         except Exception:
             pass
 meta["replays"] = details
-sh("git checkout -q -- . && git clean -fdq -e out", cwd=wt)
+meta["tree_diffstat"] = sh("git diff --stat", cwd=wt)[1][-400:]
+sh("git reset -q --hard && git clean -fdq -e out", cwd=wt)
 os.makedirs(dst, exist_ok=True)
 shutil.copyfile(os.path.join(src, "patch.diff"), os.path.join(dst, "patch.diff"))
 for f in glob.glob(os.path.join(src, "*")):
